@@ -9,6 +9,6 @@ if [ -f tools/gen.py ] && [ -f tools/GEN_ENABLED ]; then /venv/bin/python tools/
 cd coq
 coq_makefile -f _CoqProject -o Makefile
 timeout 3000 make -j"$(nproc)"
-cd ../ocaml
-ocamlfind ocamlopt -O2 -w -a model.mli model.ml driver.ml -o driver
+cd ..
+/venv/bin/python -c "import sys; sys.path.insert(0,'harness'); import common as C; i=C.build(); print(i); sys.exit(0 if i['make_ok'] and i['ocaml_ok'] else 1)"
 echo "setup ok"
